@@ -881,7 +881,10 @@ class Canon:
         return tuple(_merge_guard_chain(out))
 
     def function(self) -> tuple:
-        return self.block(body_without_docstring(self.fi.node))
+        blk = self.block(body_without_docstring(self.fi.node))
+        while blk and blk[-1] == ("ret", K_NONE):      # falling off the end is the same return
+            blk = blk[:-1]
+        return blk
 
     def stmt(self, st: ast.stmt) -> list[S]:
         if isinstance(st, ast.Pass):
@@ -972,8 +975,8 @@ class Canon:
                 tgts = [self.expr_store(x) if not (isinstance(x, ast.Name) and x.id in self.inlinable) else None
                         for x in t.elts]
                 # simultaneous assignment whose targets are read on the right must stay atomic
-                stored = [x for x in tgts if x is not None]
-                if any(contains(v, s) for v in val[1] for s in stored):
+                # (a value may read its own target and later ones: assigning left to right gives the same result)
+                if any(contains(v, s) for j, v in enumerate(val[1]) for s in tgts[:j] if s is not None):
                     return [("mset", tuple(self.expr_store(x) for x in t.elts), val[1])]
                 out: list[S] = []
                 for x, v in zip(t.elts, val[1]):
@@ -994,11 +997,49 @@ class Canon:
 _EXITS = ("ret", "raise", "continue", "break")
 
 
+def _ends_in_exit(block) -> bool:
+    return bool(block) and isinstance(block[-1], tuple) and bool(block[-1]) and block[-1][0] in _EXITS
+
+
 def _merge_guard_chain(stmts: list[S]) -> list[S]:
-    """``if c1: return v`` ; ``if c2: return v``  ==>  ``if c1 or c2: return v``
-    (consecutive guards with an identical exiting body and no else-branch)."""
+    """Normal form of conditionals with an exiting arm, then merging of guard chains.
+
+    * ``if c: ...; return  else: rest`` is ``if c: ...; return`` followed by ``rest`` (whichever arm exits);
+    * when both the guarded arm and the rest of the block visibly end in an exit, the guard is the arm with the
+      positive test (``if not c: return a`` ; ``return b``  ==  ``if c: return b`` ; ``return a``);
+    * ``if c1: return v`` ; ``if c2: return v``  ==>  ``if c1 or c2: return v`` (consecutive guards with an identical
+      exiting body and no else-branch)."""
+    def guard(c: S, body: tuple, follow: list) -> list:
+        g = ("if", c, tuple(body), ())
+        # if a: (if b: T; R); R   ==   if a and b: T; R
+        while g[2] and isinstance(g[2][0], tuple) and len(g[2][0]) == 4 and g[2][0][0] == "if" and g[2][0][3] == () \
+                and _ends_in_exit(g[2][0][2]) and list(g[2][1:]) == list(follow) and _ends_in_exit(follow):
+            g = ("if", mk_and([g[1], g[2][0][1]]), g[2][0][2], ())
+        return [g] + list(follow)
+
+    tail: list[S] = []
+    for st in reversed(list(stmts)):
+        if isinstance(st, tuple) and len(st) == 4 and st[0] == "if" and st[2]:
+            c, then, orelse = st[1], st[2], st[3]
+            if orelse:
+                t_exit, e_exit = _ends_in_exit(then), _ends_in_exit(orelse)
+                if t_exit and e_exit:
+                    if _negative(c):
+                        c, then, orelse = mk_not(c), orelse, then
+                    tail = guard(c, then, list(orelse)) + tail
+                    continue
+                if t_exit:
+                    tail = guard(c, then, list(orelse)) + tail
+                    continue
+                if e_exit:
+                    tail = guard(mk_not(c), orelse, list(then)) + tail
+                    continue
+            elif _ends_in_exit(then) and _ends_in_exit(tail) and _negative(c):
+                tail = guard(mk_not(c), tuple(tail), list(then))
+                continue
+        tail = [st] + tail
     out: list[S] = []
-    for st in stmts:
+    for st in tail:
         if out and _is_guard(st) and _is_guard(out[-1]) and out[-1][2] == st[2]:
             prev = out.pop()
             out.append(("if", mk_or([prev[1], st[1]]), st[2], ()))
